@@ -193,7 +193,7 @@ func decodeNumericShort(raw []byte, header uint16) interface{} {
 	}
 	weight := int(header & 0x003F)
 	if header&0x0040 != 0 {
-		weight = -weight - 1
+		weight -= 64 // 7-bit two's complement
 	}
 
 	ndigits := (len(raw) - 2) / 2
